@@ -320,6 +320,9 @@ def small_ops():
     ops = []
     for i in U_SMALL:
         ops.append(["add", [["u", i]], False, False])
+    ops.append(["add", [["c", 8]], False, False])
+    ops.append(["add", [["c", 0]], False, False])
+    ops.append(["remove", [["c", 8]], False])
     ops.append(["add", [["u", 0], ["u", 1]], False, True])
     ops.append(["add", [["u", 4], ["u", 4]], False, True])
     for i in (0, 1, 4, 8):
@@ -361,8 +364,8 @@ def op_strategy():
     sref = st.tuples(st.just("s"), st.integers(0, 7)).map(list)
     cref = st.tuples(st.just("c"), st.integers(0, U_SIZE - 1)).map(list)
     held_or_not = st.one_of(uref, sref, sref, cref)
-    add1 = st.tuples(st.just("add"), st.lists(uref, min_size=1, max_size=1), st.just(False), st.booleans()).map(list)
-    addn = st.tuples(st.just("add"), st.lists(st.one_of(uref, uref, sref), min_size=0, max_size=4), st.just(False), st.just(True)).map(list)
+    add1 = st.tuples(st.just("add"), st.lists(st.one_of(uref, uref, uref, cref), min_size=1, max_size=1), st.just(False), st.booleans()).map(list)
+    addn = st.tuples(st.just("add"), st.lists(st.one_of(uref, uref, sref, cref), min_size=0, max_size=4), st.just(False), st.just(True)).map(list)
     addf = st.tuples(st.just("add"), st.lists(st.one_of(uref, uref, sref), min_size=1, max_size=3), st.just(True), st.booleans()).map(list)
     rm1 = st.tuples(st.just("remove"), st.lists(held_or_not, min_size=1, max_size=1), st.booleans()).map(list)
     rmn = st.tuples(st.just("remove"), st.lists(held_or_not, min_size=0, max_size=3), st.just(True)).map(list)
@@ -487,4 +490,5 @@ def run(chk):
     chk.assumptions = [
         "the order of Library.strings is not asserted (the statement fixes order for blocks and entries only)",
         "an object added twice is held twice (two positions); 'exactly once' is read per add call",
+        "remove/replace locate blocks by structural equality: with a block and its structurally equal copy both held, the first of them in block order is the one affected",
     ]
